@@ -57,6 +57,11 @@ func (e *Envelope) SetPayload(payload any) error {
 		PayloadType: PayloadType,
 	}
 
+	// An envelope that nobody has signed yet has an empty list of signatures.
+	// Without it "signatures" is written as null, and the file cannot be
+	// loaded again.
+	e.envelope.Signatures = []dsse.Signature{}
+
 	return nil
 }
 
